@@ -197,7 +197,7 @@ def _wrapped_lookup_records(self, **kwargs):
   S["n_lookup"] += 1
   if self._engine._is_current_node_formula: S["in_formula"] += 1
   got = list(result._row_ids)
-  _LAST[0] = (expected, ordered)
+  _LAST[0] = (expected, ordered, result)
   if not ordered: S["unordered"] += 1
   S["nontrivial"].add(hash((self.table_id, repr(sorted(_show_kwargs(shown).items())),
                             tuple(got))))
@@ -256,7 +256,7 @@ def _wrapped_lookup_one(self, **kwargs):
   last = _LAST[0]
   if last is None:
     return rec
-  expected, ordered = last
+  expected, ordered, last_result = last
   S["n_one"] += 1
   rid = rec._row_id
   ok = (rid == (expected[0] if expected else 0)) if ordered else \
@@ -266,6 +266,9 @@ def _wrapped_lookup_one(self, **kwargs):
     reason = "lookup_one"
     if rid and rid not in self.row_ids and rid in dropped:
       reason = "returned-row-was-dropped-by-ReplaceTableData"
+    elif ordered and rid in expected:          # right rows, wrong first one: an ordering failure
+      rc = _order_root_cause(self, last_result)
+      if rc != "order": reason = rc
     S["viol"].append(("C13.lookup_one", {
       "table": self.table_id, "kwargs": _show_kwargs(shown), "returned": rid,
       "expected_first_of": expected, "reason": [reason]}))
